@@ -556,7 +556,52 @@ def rule_r6(prog, res, tier):
     res.floor('R6', 'get_out_object call in handle_rpc', n, 1)
 
 
+# ------------------------------------------------------------------- R7
+def rule_r7(prog, res):
+    res.rule('R7', 'fault messages are templates: request text is never '
+             'pre-formatted into the string that ValidationError formats '
+             'again')
+    import re as _re
+    n = 0
+    for f in prog.all_functions():
+        rel = f.module.relpath
+        if not (rel.startswith('spyne/protocol/') or
+                rel.startswith('spyne/model/')):
+            continue
+        params = set(f.params())
+        for c in calls_in(f.node):
+            if call_name(c) != 'ValidationError' or len(c.args) < 2:
+                continue
+            msg = c.args[1]
+            if not (isinstance(msg, ast.BinOp) and isinstance(msg.op, ast.Mod)
+                    and isinstance(msg.left, ast.Constant) and
+                    isinstance(msg.left.value, str)):
+                continue
+            n += 1
+            tmpl = msg.left.value
+            remaining = len(_re.findall(r'%%[rsd]', tmpl))
+            embeds = [x.id for x in ast.walk(msg.right)
+                      if isinstance(x, ast.Name) and x.id in params and
+                      x.id not in ('self', 'cls')]
+            where = '%s:%d' % (rel, c.lineno)
+            inst = '%s: ValidationError(%s, %s)' % (
+                f.qualname, unparse(c.args[0])[:20], unparse(msg)[:60])
+            if remaining == 0 and embeds:
+                res.ob('R7', where, inst, 'VIOLATED')
+                res.finding('R7', '%s|preformatted|%s' % (f.qualname,
+                                                          tmpl[:40]), where,
+                            'the message is fully formatted with request '
+                            'text (%s) before ValidationError formats it '
+                            'again with %% (obj,): a "%%" in the value raises '
+                            'ValueError, which is not a Fault' % ', '.join(
+                                embeds))
+            else:
+                res.ob('R7', where, inst, 'ok')
+    res.floor('R7', 'formatted ValidationError messages', n, 4)
+
+
 def run(prog, res, tier):
+    res.run_rule(rule_r7, prog, res)
     cg = CallGraph(prog)
     ef = ExcFlow(prog, cg)
     res.run_rule(rule_r1, prog, res, tier)
@@ -698,6 +743,11 @@ MUTANTS = [
            in_func('InProtocolBase.integer_from_bytes',
                    "        except ValueError:", "        except KeyError:"),
            'integer_from_bytes'),
+    Mutant('preformatted-validation-message', 'R7', 'fire', _I,
+           in_func('InProtocolBase.decimal_from_unicode',
+                   'raise ValidationError(string, "%%r: %r" % e)',
+                   'raise ValidationError(string, "Could not cast %r to '
+                   'decimal" % (string,))'), 'preformatted'),
     Mutant('twin-decode-helper-inlined-safely', 'R3', 'benign', _I,
            in_func('InProtocolBase.time_from_bytes',
                    "            string = self._bytes_to_unicode(string)",
